@@ -10,8 +10,10 @@ VARIABLES c, done
 vars == <<c, done>>
 Positions == {<<px, fx, py, fy>> : px \in 0..(N - 1), fx \in {0, 3, 7}, py \in 0..(M - 1), fy \in {0, 3, 7}}
 Shifts == {<<0, 0>>, <<1, 0>>, <<0, 1>>, <<N - 1, M - 1>>, <<2, M + 1>>, <<-1, -2>>}
-Init == /\ \E a \in Positions, b \in {<<0, 3, 1, 7>>, <<N - 1, 7, M - 1, 7>>}, s \in Shifts, r \in {<<1, 1>>, <<2, 1>>, <<1, 2>>, <<2, 2>>} :
-             c = [atoms |-> <<a, b>>, shift |-> s, rep |-> r]
+(* col: a further atom of the same kind in the SAME pixel as the first one (an atomic column seen along the beam: the contributions *)
+(* to a pixel add up), with another sub-pixel fraction                                                                             *)
+Init == /\ \E a \in Positions, b \in {<<0, 3, 1, 7>>, <<N - 1, 7, M - 1, 7>>}, s \in Shifts, r \in {<<1, 1>>, <<2, 1>>, <<1, 2>>, <<2, 2>>}, col \in BOOLEAN :
+             c = [atoms |-> IF col THEN <<a, b, <<a[1], (a[2] + 2) % 8, a[3], (a[4] + 5) % 8>>, a>> ELSE <<a, b>>, shift |-> s, rep |-> r, column |-> col]
         /\ done = FALSE
 Next == ~done /\ done' = TRUE /\ UNCHANGED c
 Spec == Init /\ [][Next]_vars
@@ -21,5 +23,5 @@ RepeatIsTile == SumWeights(c.rep[1] * N, c.rep[2] * M, RepeatAtoms(c.atoms, N, M
 MassConserved == REq(Total(W0, N, M), RInt(Len(c.atoms)))
 PosClass(p, n) == IF p = 0 THEN "first" ELSE IF p = n - 1 THEN "last" ELSE "inner"
 EmitCase == (Emit /\ done) => PrintT(<<"CASE", ToJson([ax |-> PosClass(c.atoms[1][1], N), fx |-> c.atoms[1][2], ay |-> PosClass(c.atoms[1][3], M),
-                                                      fy |-> c.atoms[1][4], shift |-> c.shift, rep |-> c.rep])>>)
+                                                      fy |-> c.atoms[1][4], shift |-> c.shift, rep |-> c.rep, column |-> c.column])>>)
 =============================================================================
